@@ -96,5 +96,31 @@ __CPROVER_ensures(!self->g_fsync_enabled ==> g_fsyncs == 0)
 __CPROVER_ensures(g_reopens <= 1 && (g_reopens == 1 ==> (!self->g_file_exists && g_fflushes == OLD(g_fflushes) + 1))) /*@ C06 "a deleted file is reopened only after what was written has been flushed" */
 ''')],
     harness='  FS* s; FS_flush_sink(s);',
-    dropped=['std::filesystem::exists as a ghost answer', 'close_file + open_file as one reopen stub'], trusted=['StreamSink::flush_sink by the contract unit SS.flush_sink proves (restated)', 'fsync_file (minimum interval logic) not covered'], min_obligations=10)
+    dropped=['std::filesystem::exists as a ghost answer', 'close_file + open_file as one reopen stub'], trusted=['StreamSink::flush_sink by the contract unit SS.flush_sink proves (restated)', 'fsync_file by unit FS.fsync_file'], min_obligations=10)
 UNITS = [write_log, flush_sink, fs_flush_sink]
+
+# ------------------------------------------------------------------------------------------ FileSink::fsync_file
+FY_PRELUDE = r'''
+typedef struct FSy { int64_t _last_fsync_timestamp; int64_t g_min_interval; } FSy;   /* steady_clock time points / durations as int64 nanoseconds */
+int64_t g_now; size_t g_fsyncs, g_now_reads;
+int64_t STEADY_NOW(void) __CPROVER_assigns(g_now_reads) __CPROVER_ensures(RET == g_now && g_now_reads == OLD(g_now_reads) + 1);
+void OS_FSYNC(FSy* self) __CPROVER_assigns(g_fsyncs) __CPROVER_ensures(g_fsyncs == OLD(g_fsyncs) + 1);
+'''
+fsync_file = dict(
+    name='FS.fsync_file', primary='C06', props={'C06'}, kind='L',
+    desc='FileSink::fsync_file: a forced sync always reaches the OS; an unforced one is skipped only inside the configured minimum interval since the last sync, and a sync that happens restarts the interval',
+    structs=[], prelude=FY_PRELUDE, enforce='FS_fsync_file', replace=['STEADY_NOW', 'OS_FSYNC'],
+    funcs=[dict(src=dict(header=FH, cls='FileSink', name='fsync_file'), src_params=['force_fsync'], cfun='FS_fsync_file', sig='void FS_fsync_file(FSy* self, bool force_fsync)', cls_c='FS', member_fields=['_last_fsync_timestamp'],
+                pre_rules=[(r'auto\s+const\s+now\s*=\s*std::chrono::steady_clock::now\(\)\s*;', 'int64_t const now = STEADY_NOW();'), (r'_config\.minimum_fsync_interval\(\)', 'self->g_min_interval'),
+                           (r'::fsync\(fileno\(_file\)\)\s*;', 'OS_FSYNC(self);')],
+                contract=r'''
+__CPROVER_requires(__CPROVER_is_fresh(self, sizeof(*self)) && g_fsyncs == 0 && g_now >= 0 && g_now < (1LL << 62) && self->_last_fsync_timestamp >= 0 && self->_last_fsync_timestamp <= g_now && self->g_min_interval >= 0 && self->g_min_interval < (1LL << 62))
+__CPROVER_assigns(self->_last_fsync_timestamp, g_fsyncs, g_now_reads)
+__CPROVER_ensures(force_fsync ==> (g_fsyncs == 1 && self->_last_fsync_timestamp == OLD(self->_last_fsync_timestamp))) /*@ C06 "a forced sync (before a rotation) always reaches the OS" */
+__CPROVER_ensures(!force_fsync ==> (g_fsyncs == ((g_now - OLD(self->_last_fsync_timestamp) < self->g_min_interval) ? 0 : 1))) /*@ C06 "an unforced sync is skipped only inside the configured minimum interval since the last one (never with the default interval 0)" */
+__CPROVER_ensures((!force_fsync && g_fsyncs == 1) ==> self->_last_fsync_timestamp == g_now) /*@ C06 "a sync that happens restarts the interval" */
+__CPROVER_ensures((!force_fsync && g_fsyncs == 0) ==> self->_last_fsync_timestamp == OLD(self->_last_fsync_timestamp))
+''')],
+    harness='  FSy* s; bool f; FS_fsync_file(s, f);',
+    dropped=['std::chrono::steady_clock time points and durations as int64 nanoseconds', 'the _WIN32 arm (not compiled here)'], trusted=['::fsync / fileno'], min_obligations=8)
+UNITS.append(fsync_file)
